@@ -513,6 +513,28 @@ pub fn monitor(o: &Obs) -> Result<(), String> {
             }
         }
     }
+    // C08: a peer that has failed is let go of: once a sink has answered with an error (or refused the rejection meant for it)
+    // the router does not call it again — whatever it would have to wait for there (a close that never completes, a flush)
+    // is no longer anybody's business, and nobody else waits behind it
+    {
+        let mut failed_at: BTreeMap<usize, usize> = BTreeMap::new();
+        let mut ended_streams: BTreeSet<usize> = BTreeSet::new();
+        for (idx, e) in o.events.iter().enumerate() {
+            match e {
+                Ev::SinkReady(i, a) | Ev::SinkFlush(i, a) | Ev::SinkClose(i, a) => {
+                    if let Some(at) = failed_at.get(i) { if idx > *at { return Err(format!("C08/C10: {} had failed (it answered with an error) and the router went on calling it: a failed peer is let go of, nothing waits for it", who(*i, true))); } }
+                    // (a replier whose stream has ended is leaving anyway: an error of the farewell flush only warns, and that
+                    // flush is repeated if the requestors' flush behind it was Pending)
+                    if *a == A::Err && !(matches!(e, Ev::SinkFlush(..)) && ended_streams.contains(i)) { failed_at.entry(*i).or_insert(idx); }
+                }
+                Ev::SinkSend(i, _, _) => {
+                    if let Some(at) = failed_at.get(i) { if idx > *at { return Err(format!("C08/C10: {} had failed (it answered with an error) and the router went on handing it frames", who(*i, true))); } }
+                }
+                Ev::StreamEnd(i) => { ended_streams.insert(*i); }
+                _ => {}
+            }
+        }
+    }
     // C16: bounded whatever the peers do: once the channel is closed the router finishes with what it has taken; it does not
     // go on serving for as long as requestors (or the replier) have frames ready (c16_reqrep_shutdown_completes)
     if let Some(at) = o.closed_at {
@@ -697,6 +719,9 @@ pub fn run(cfg: &Cfg) {
                   "rr +sr=PPPPPPPPR/p,p,p,p,p,p,p,p,p,p,p +c_/i:m1,i:m2,p,p,p,p,p,p,p,p,p,p poll poll poll poll poll poll poll poll poll poll poll poll",
                   "rr +s_/p,p,p,p,p,p,p,p,p,p,p +sr=PPPPPPPPR/p +c_/i:m1,p,p,p,p,p,p,p,p,p,p poll poll poll poll poll poll poll poll poll poll poll poll",
                   "rr +cf=PPPPPPPPR/p,p,p,p,p,p,p,p,p,p,p +s_/i:m2[cid=0],p,p,p,p,p,p,p,p,p,p poll poll poll poll poll poll poll poll poll poll poll poll"] { cases.push(c.to_string()); }
+        // a replier that fails and would then take for ever to say goodbye (its close stays Pending): another one binds and serves
+        for c in ["rr +c_/i:m1,p,p,p,p,p,p,p,p +s~r=E;s=;f=;c=PPPPPPPPPPPPPPPPPPPPPPPP/p,p,p,p,p,p,p,p,p,p poll poll +s_/p,p,p,p,p,p poll poll +c_/i:m2,p,p,p poll poll poll",
+                  "rr +s~r=;s=O;f=E;c=PPPPPPPPPPPPPPPPPPPPPPPP/p,p,p,p,p,p,p,p +c_/i:m1,p,p,p,p,p,p,p,p poll poll +s_/p,p,p,p,p,p poll poll +c_/i:m2,p,p,p poll poll poll"] { cases.push(c.to_string()); }
         // shutdown while a requestor (or the replier) has a standing backlog: the router finishes with what it has taken
         for c in ["rr +s_/p,p,p +c_/p,i:m9* poll close poll poll poll", "rr +c_/p,i:m9* poll close poll poll", "rr +c_/p +s_/p,i:m9[cid=0]* poll close poll poll poll",
                   "rr +s_/p,p,p +c_/i:m1,p,i:m9* +c_/p,i:m8* poll close poll poll poll"] { cases.push(c.to_string()); }
